@@ -107,6 +107,26 @@ look-ups are evaluated) - verdict column.
 |---|---|---|
 %s
 '''%'\n'.join(r2rows)
+r3rows=[]
+for d in sorted(glob.glob('/verif/refactors3/*/')):
+    pid=os.path.basename(d.rstrip('/'))
+    m=json.load(open(d+'meta.json'))
+    vf=d+'verdict.txt'
+    r3rows.append('| %s | %s | %s |'%(pid,short(m.get('summary',''),230),short(open(vf).read(),260) if os.path.exists(vf) else 'OK'))
+s13+='''
+### Round 3 (the code the properties depend on)
+
+After seed rounds 6-8 had pulled glue code, caches, backends and executor layers into models and translators, thirteen
+fresh sub-agents refactored exactly that dependency code (cache proxy, class cache, port-range parser, constraint
+matcher, remote apricot client/server, servent and command queue, template field evaluation, executor message handler
+and ControllableTask, gRPC client, Consul/YAML backends, template loader, query helpers), 50-110 changed lines each.
+Patches under `/verif/refactors3/<id>/` (`REFDIR=refactors3 tools/rerefactor.sh <id>`). Ten of thirteen were OK at
+once; three tripped a translator added or extended in those rounds - verdict column.
+
+| id | refactoring | verdict |
+|---|---|---|
+%s
+'''%'\n'.join(r3rows)
 s=open('/verif/DESIGN.md').read()
 i=s.index('## 12. Seeded changes and what catches them')
 open('/verif/DESIGN.md','w').write(s[:i]+s12+s13)
